@@ -18,7 +18,7 @@ func init() {
 const envelopeAssumptions = "the fan's limits satisfy GetMinPwm() + offset <= GetMaxPwm() when a cycle starts (the quantifier's 0 <= min <= max <= 255; upkeep of this invariant by the raise path is obligation O2-raise); integers stay below 2^53 so int<->float64 conversion is exact"
 
 func c01(c *Ctx) {
-	c.R.Explanation = "C01: the envelope clause is decided for every state and input. O1 (value provenance) = every Fan.SetPwm invoke in the call tree of UpdateFanSpeed writes pwmMap[FindClosest(request, keys)] where request is result #0 of the target computation on its nil-error path. O2 (symbolic range analysis, E4) = every nil-error return of the target computation is proved to satisfy GetMinPwm() + offset <= request <= GetMaxPwm(), the bounds being linear expressions over the SSA values of the Fan.GetMinPwm/GetMaxPwm invokes and the load of the controller's offset field; the curve value, the control loop's Cycle result (an interface call) and the RPM average are unconstrained symbols, so the proof covers every algorithm, every algorithm state, NaN/absurd readings and all histories: it rests only on the integer clamp, the rescale and the guarded +1. O2-raise = on the path that raises the minimum the request is >= old floor + 1 and <= max, which keeps floor <= max after the offset increment. O3 = the offset field is only initialised to a non-negative constant and incremented; O3-limits = no Fan.SetMinPwm/SetMaxPwm/SetStartPwm with a non-false force is reachable from UpdateFanSpeed (the limits the envelope is proved against do not move while regulating). O4 (typestate) = after every store to the map field the key list is recomputed as sort(ExtractKeysWithDistinctValues(map)) before the next FindClosest use or hand-off to the control goroutines. O5 = every Fan.SetPwm implementation and the util write helpers pass their parameter unmodified to the sink. Not decided: that FindClosest returns the nearest key (C12, functional)."
+	c.R.Explanation = "C01: the envelope clause is decided for every state and input. O1 (value provenance) = every Fan.SetPwm invoke in the call tree of UpdateFanSpeed writes pwmMap[FindClosest(request, keys)] where request is result #0 of the target computation on its nil-error path. O2 (symbolic range analysis, E4) = every nil-error return of the target computation is proved to satisfy GetMinPwm() + offset <= request <= GetMaxPwm(), the bounds being linear expressions over the SSA values of the Fan.GetMinPwm/GetMaxPwm invokes and the load of the controller's offset field; the curve value, the control loop's Cycle result (an interface call) and the RPM average are unconstrained symbols, so the proof covers every algorithm, every algorithm state, NaN/absurd readings and all histories: it rests only on the integer clamp, the rescale and the guarded +1. O2-raise = on the path that raises the minimum the request is >= old floor + 1 and <= max, which keeps floor <= max after the offset increment. O3 = the offset field is only initialised to a non-negative constant and incremented; O3-limits = no Fan.SetMinPwm/SetMaxPwm/SetStartPwm with a non-false force is reachable from UpdateFanSpeed (the limits the envelope is proved against do not move while regulating). O4 (typestate) = after every store to the map field, and after every in-place update of the map held in it, the key list is recomputed as sort(ExtractKeysWithDistinctValues(map)) before the next FindClosest use or hand-off to the control goroutines. O5 = every Fan.SetPwm implementation and the util write helpers pass their parameter unmodified to the sink. Not decided: that FindClosest returns the nearest key (C12, functional)."
 	c.R.Assumptions = append(c.R.Assumptions, envelopeAssumptions, "PWM-map outputs lie in 0..255 (quantifier)")
 	r := c.analyseRegulation()
 	r.ruleFlow("O1-flow")
